@@ -1,0 +1,7 @@
+//go:build !verif
+
+package validator
+
+import "github.com/ccbrown/api-fu/graphql/ast"
+
+func verifCostVisit(ast.Node) {}
